@@ -142,6 +142,9 @@ func Execute(t *testing.T, spec *RunSpec) *Result {
 		s.installHooks()
 		s.World = buildWorld(s, &spec.World)
 		res.Before = snapshotAll(s.World)
+		if spec.World.Tx != nil {
+			s.World.Tx = buildTx(s, spec.World.Tx, s.World.Servers[s.World.Order[0]].Clock)
+		}
 		for i := range spec.Requests {
 			rs := &spec.Requests[i]
 			task := s.newTask(rs.ID, nil, nil)
@@ -153,7 +156,11 @@ func Execute(t *testing.T, spec *RunSpec) *Result {
 				task.authOK, task.blockOK = true, true
 			}
 			tk := task
-			task.fn = func() { s.World.runRequest(tk, rs) }
+			if strings.HasPrefix(rs.Kind, "tx") {
+				task.fn = func() { s.World.Tx.runTx(tk, rs) }
+			} else {
+				task.fn = func() { s.World.runRequest(tk, rs) }
+			}
 			s.launch(task)
 		}
 	})
